@@ -604,6 +604,11 @@ func (runInfo *runInfoStruct) invokeLetDerefExpr(expr *ast.DerefExpr) {
 		runInfo.rv = nilValue
 		return
 	}
+	if isTypeValue(runInfo.rv) {
+		runInfo.err = newStringError(expr.Expr, "cannot deference a type")
+		runInfo.rv = nilValue
+		return
+	}
 	elem := runInfo.rv.Elem()
 	if !elem.CanSet() {
 		runInfo.err = newStringError(expr, "dereferenced value cannot be assigned")
